@@ -467,40 +467,67 @@ theorem step_dLoadEntry {n : Nat} (ih : AllSound n) (cfg : Cfg) (name : Name) :
     SpecE cfg name (dLoadEntry (n+1) cfg name) := by
   intro s hs
   simp only [dLoadEntry, wp_bind, wp_getSt]
-  cases hg : s.get .d (keyOf name) with
-  | some e =>
-    simp only [wp_pure]
-    exact ⟨hs, fun d hd => hs .d (keyOf name) d (by rw [hg]; exact hd)⟩
-  | none =>
+  have hbody : ∀ own : Option Entry, s.get .d (keyOf name) = own →
+      wp (do
+        let r ← dFind n cfg name
+        let st ← getSt
+        match r, st.get .d (keyOf name) with
+        | some (some d), some (some d') =>
+          if d = d' then pure (some (some d))
+          else do
+            let e ← setEntry .d (keyOf name) (some d)
+            pure (some e)
+        | some (some d), _ => do
+          let e ← setEntry .d (keyOf name) (some d)
+          pure (some e)
+        | _, _ =>
+          match own with
+          | none => do
+            let e ← setEntry .d (keyOf name) none
+            pure (some e)
+          | some o => pure (some o)) (fun r s' => Inv cfg s' ∧ PostE cfg name r) (Inv cfg) s := by
+    intro own hown
     simp only [wp_bind]
     refine wp_mono (ih.dFind cfg name s hs) ?_ (fun _ h => h)
     intro r s1 ⟨hs1, hr⟩
     simp only [wp_getSt]
-    have hgen : wp (do
-        let e ← setEntry .d (keyOf name) (r.getD none)
-        pure (some e)) (fun r s' => Inv cfg s' ∧ PostE cfg name r) (Inv cfg) s1 := by
+    have hset : ∀ e0 : Entry, (∀ d', e0 = some d' → GoodDef cfg (keyOf name) d') →
+        wp (do
+          let e ← setEntry .d (keyOf name) e0
+          pure (some e)) (fun r s' => Inv cfg s' ∧ PostE cfg name r) (Inv cfg) s1 := by
+      intro e0 he0
       simp only [wp_bind]
-      refine wp_mono (sound_setEntry hs1 .d (keyOf name) (r.getD none) (fun d' h' => by
-        cases r with
-        | none => cases h'
-        | some e => exact hr d' (by simp only [Option.getD] at h'; rw [h']))) ?_ (fun _ h => h)
+      refine wp_mono (sound_setEntry hs1 .d (keyOf name) e0 he0) ?_ (fun _ h => h)
       intro e s2 ⟨hs2, he⟩
       exact ⟨hs2, fun d hd => he d (by injection hd)⟩
+    have hgen : wp (match own with
+        | none => do
+          let e ← setEntry .d (keyOf name) none
+          pure (some e)
+        | some o => pure (some o)) (fun r s' => Inv cfg s' ∧ PostE cfg name r) (Inv cfg) s1 := by
+      cases own with
+      | none => exact hset none (fun d' h' => by cases h')
+      | some o =>
+        refine ⟨hs1, fun d hd => ?_⟩
+        have ho : o = some d := by injection hd
+        exact hs .d (keyOf name) d (by rw [hown, ho])
     match r, hr, s1.get .d (keyOf name) with
     | some (some d), hr, some (some d') =>
       simp only []
       by_cases hdd : d = d'
       · rw [if_pos hdd]; exact ⟨hs1, hr⟩
       · rw [if_neg hdd]
-        simp only [wp_bind]
-        refine wp_mono (sound_setEntry hs1 .d (keyOf name) (some d) (fun d'' h' => by
-          cases h'; exact hr d rfl)) ?_ (fun _ h => h)
-        intro e s2 ⟨hs2, he⟩
-        exact ⟨hs2, fun d hd => he d (by injection hd)⟩
-    | some (some d), hr, some none => simpa only [wp_bind] using hgen
-    | some (some d), hr, none => simpa only [wp_bind] using hgen
-    | some none, hr, _ => simpa only [wp_bind] using hgen
-    | none, hr, _ => simpa only [wp_bind] using hgen
+        exact hset (some d) (fun d'' h' => by cases h'; exact hr d rfl)
+    | some (some d), hr, some none => exact hset (some d) (fun d'' h' => by cases h'; exact hr d rfl)
+    | some (some d), hr, none => exact hset (some d) (fun d'' h' => by cases h'; exact hr d rfl)
+    | some none, hr, _ => exact hgen
+    | none, hr, _ => exact hgen
+  match hg : s.get .d (keyOf name) with
+  | some (some d) =>
+    simp only [wp_pure]
+    exact ⟨hs, fun d' hd => hs .d (keyOf name) d' (by rw [hg]; exact hd)⟩
+  | some none => exact hbody (some none) hg
+  | none => exact hbody none hg
 
 theorem allSound : ∀ n, AllSound n
   | 0 => by
